@@ -3,18 +3,53 @@ package main
 
 import (
 	"os"
+	"os/exec"
 
 	"github.com/thanos-io/thanos/verifharness/hlib"
 )
 
 var props []*hlib.Prop
 
+// The real code runs goroutines of its own (errgroup in fetchMissingSubranges, the lazy reader
+// stress): a panic or fault there kills the process and cannot be recovered per op.  So the
+// harness supervises itself: `run`/`exec` are executed in a child process; if the child dies, they
+// are executed once more in "isolate" mode, where every crash-prone op runs in a process of its
+// own and a crash becomes an ordinary oracle violation with the op line as failing input.
 func main() {
-	// the C16 stress run executes in a child process of this binary (a use of an unmapped
-	// index-header would kill the process)
-	if len(os.Args) > 1 && os.Args[1] == "c16child" {
-		c16Child(os.Args[2:])
-		return
+	if len(os.Args) > 1 {
+		switch os.Args[1] {
+		case "c16child":
+			c16Child(os.Args[2:])
+			return
+		case "c14child":
+			c14Child(os.Args[2:])
+			return
+		case "run", "exec":
+			if os.Getenv("VERIF_INDEX_CHILD") == "" {
+				os.Exit(supervise())
+			}
+		}
 	}
 	hlib.Main(props)
+}
+
+func supervise() int {
+	runChild := func(extra ...string) int {
+		cmd := exec.Command(os.Args[0], os.Args[1:]...)
+		cmd.Env = append(append(os.Environ(), "VERIF_INDEX_CHILD=1"), extra...)
+		cmd.Stdout, cmd.Stderr = os.Stdout, os.Stderr
+		if err := cmd.Run(); err != nil {
+			if ee, ok := err.(*exec.ExitError); ok && ee.ExitCode() > 0 {
+				return ee.ExitCode()
+			}
+			return 1
+		}
+		return 0
+	}
+	rc := runChild()
+	if rc == 0 {
+		return rc
+	}
+	// (a Go panic exits with status 2, as hlib's usage errors do: a second attempt costs nothing)
+	return runChild("VERIF_INDEX_ISOLATE=1")
 }
